@@ -178,11 +178,11 @@ theorem bnd_decPingPong : Bnd 1 0 0 (decPingPong (P := P)) :=
 theorem noPanic_decPingPong : NoPanic (decPingPong (P := P)) :=
   NoPanic.bind noPanic_rU64 fun td => NoPanic.bind noPanic_rU64 fun h => NoPanic.pure (Body.pingPong td h)
 
-theorem bnd_decBanReason : Bnd 1 0 0 (decBanReason (P := P)) := by
+theorem bnd_decBanReason (rd : Rdr) : Bnd 1 0 0 (decBanReason (P := P) rd) := by
   intro bs
   unfold decBanReason
   cases h : readU32 bs with
-  | error e => simp only; split <;> simp
+  | error e => simp only; split <;> cases rd <;> simp
   | ok p =>
     obtain ⟨u, r⟩ := p
     have := readU32_len h
@@ -190,7 +190,7 @@ theorem bnd_decBanReason : Bnd 1 0 0 (decBanReason (P := P)) := by
     · simp only [OBnd_ok]; omega
     · simp
 
-theorem noPanic_decBanReason : NoPanic (decBanReason (P := P)) := by
+theorem noPanic_decBanReason (rd : Rdr) : NoPanic (decBanReason (P := P) rd) := by
   intro bs
   unfold decBanReason
   simp only []
@@ -292,7 +292,7 @@ theorem bnd_decBody (pl : Payload P) (rd : Rdr) (k e : Nat) (hk : 8192 ≤ k) (h
   split
   · exact bnd_decPingPong.mono (Nat.le_refl 1) (Nat.zero_le _) (Nat.zero_le _)
   split
-  · exact bnd_decBanReason.mono (Nat.le_refl 1) (Nat.zero_le _) (Nat.zero_le _)
+  · exact (bnd_decBanReason rd).mono (Nat.le_refl 1) (Nat.zero_le _) (Nat.zero_le _)
   split
   · exact (bnd_decHashBody rd).mono (Nat.le_refl 1) (Nat.zero_le _) he
   split
@@ -315,7 +315,7 @@ theorem noPanic_decBody (pl : Payload P) (rd : Rdr) (hpl : ∀ t, NoPanic (pl t)
   split
   · exact noPanic_decPingPong
   split
-  · exact noPanic_decBanReason
+  · exact noPanic_decBanReason rd
   split
   · exact noPanic_decHashBody rd
   split
